@@ -22,6 +22,11 @@ CHECKS = {
    ref="DESIGN.md 3.3, 4 C04",
    note=TB + " Entry contracts: non-nil receivers, header parsed from the same bytes, IKESAKey nil or fully populated; Iv/Padding never assigned by non-test code.",
    tech="static analysis: SSA dataflow with wrap-aware linear forms, dominator facts, loop-variant templates"),
+ "C06": dict(cat="other",
+   text="Decides the dataflow shape of protection, not byte-level interoperability: inner encoding of the original payload list -> encryptPayload -> placeholder of exactly L octets -> Reset + BuildEncrypted dominate the Encode whose result minus L octets is MAC'd -> MAC copied into the tail of the very payload the final Encode serialises -> nothing else changes afterwards; SK next-payload rule and the container's trailing-SK rule; sender-direction keys; Encrypt = IV|CBC(padded) with per-call random IV; PKCS7 pad count in [1,16] with pad length p-1; Decrypt strips last+1 and inspects no other pad octet (any legal padding accepted).",
+   ref="DESIGN.md 4 C06",
+   note=TB + " crypto/aes, crypto/cipher, crypto/hmac correct; plain encoding deterministic (C20).",
+   tech="static analysis: dominance/ordering rules, slice-span linear forms, structural shape matching, effect scan after the MAC'd encoding"),
  "C07": dict(cat="other",
    text="Decides structural necessary conditions, not key values: the slice chain of GenerateKeyForIKESA is normalised into an offset table over P/A/E (key lengths of the SA's own PRF/integrity/encryption descriptors) and compared with RFC 7296 2.14 (order d,ai,ar,ei,er,pi,pr; total 3P+2A+2E); SKEYSEED argument roles; the seed concat list Ni|Nr|SPIi|SPIr by an ordered walk; the prf+ loop structure (Reset, T(n-1)|S|n, counter from 1, chaining block, truncation); registry lengths/hash/guards vs the RFC table; objects keyed with their own keys; NewIKESAKey argument order.",
    ref="DESIGN.md 4 C07",
@@ -52,6 +57,11 @@ CHECKS = {
    ref="DESIGN.md 4 C13",
    note=TB,
    tech="static analysis: CFG/φ structure rules, dispatch-table extraction, finite-domain evaluation of a one-octet test, structural expression equality"),
+ "C15": dict(cat="other",
+   text="Decides the shape of CalcEapAkaPrimeAtMAC (AT_MAC zeroed on the success edge dominating Marshal of the whole packet, fresh HMAC-SHA-256 under the key parameter, one Write of that encoding, Sum(nil)[:16], guarded type assertion by the E2 prover) and, for the receive path, whether re-serialisation can reproduce the received octets: the attribute container is a map emitted in sorted order, so attribute order is lost - reported as KNOWN-FINDING D15 (genuine, design-level). HMAC values are not decided.",
+   ref="DESIGN.md 4 C15, 5 D15",
+   note=TB + " crypto/hmac and crypto/sha256 correct.",
+   tech="static analysis: structural shape matching on SSA, dominance on nil-error edges, type-structure rule for order-erasing containers"),
  "C16": dict(cat="other",
    text="Decides the shape and constants of EapAkaPrimePRF against RFC 5448/9048: key concat IK'|CK', S = \"EAP-AKA'\"|Identity (exact string constant), a fresh HMAC-SHA-256 per round, data = T(n-1)|S|byte(n) with T(0) empty and n from 1 (buffer construction by make/copy/index-store matched structurally), >= 7 rounds, five result slices at the prescribed offsets in the prescribed order, empty-key guard dominating every HMAC and returning an error without keys. HMAC values are not decided.",
    ref="DESIGN.md 4 C16",
